@@ -17,7 +17,7 @@ RootPre(v, t) ==
       v1 == W(v, SegOf("ISA", <<"00", "          ", "00", "          ", i[3], i[4], i[1], i[2], DATE, TIME, i[5], i[6], ICN, "0", i[7], ":">>))
   IN IF t.gs = 0 THEN [v1 EXCEPT !.crashed = TRUE] ELSE
      LET g == t.nodes[t.gs].info    \* <<GS02, GS03, GS06, GS07>>
-     IN W(v1, SegOf("GS", <<"FA", RStrip(g[2]), RStrip(g[1]), DATE, TIME, g[3], g[4], i[6]>>))     \* GS08 := ISA12
+     IN W(v1, SegOf("GS", <<"FA", RStrip(g[2]), RStrip(g[1]), DATE, TIME, g[3], g[4], "004010">>))
 GsPre(v, gs) == LET v1 == W([v EXCEPT !.stn = @ + 1], SegOf("ST", <<"997", Pad4(v.stn + 1)>>))
                     v2 == [v1 EXCEPT !.seg_count = 1, !.st_loops = @ + 1]
                 IN W(v2, SegOf("AK1", <<gs.fic, gs.id>>))
@@ -27,10 +27,9 @@ WAll(v, lines, i) == IF i > Len(lines) THEN v ELSE WAll(W(v, lines[i]), lines, i
 SegLines(sg) == LET cs == SegLineCodes(sg, Valid3_997) IN
                 [k \in 1..Len(cs) |-> SegOf("AK3", <<sg.id, ToString(sg.pos), sg.ls, cs[k]>>)]
 EleLines(el) == LET ok == SelectSeq(el.errs, LAMBDA er : er[1] \in Valid4_997) IN
-                [k \in 1..Len(ok) |-> [id |-> "AK4", e |-> <<PosEl(el), S1(el.ref), S1(ok[k][1])>> \o (IF ok[k][2] # "" THEN <<SetVal(ok[k][2])>> ELSE <<>>)]]
+                [k \in 1..Len(ok) |-> [id |-> "AK4", e |-> <<PosEl(el), S1(el.ref), S1(ok[k][1])>> \o (IF ok[k][2] # "" THEN <<Echo(ok[k][2], {TERM, ELE, SUB})>> ELSE <<>>)]]
 VisitSeg(v, sg) == WAll(WAll(v, SegLines(sg), 1), Flatten([k \in 1..Len(sg.eles) |-> EleLines(sg.eles[k])]), 1)
-StPost(v, st) == IF StEleBad(st) THEN [v EXCEPT !.crashed = TRUE]
-                 ELSE W(v, SegOf("AK5", <<st.ack>> \o Take(StCodes(st), 5)))
+StPost(v, st) == W(v, SegOf("AK5", <<st.ack>> \o Take(StCodes(st), 5)))
 RECURSIVE VisitSegs(_, _, _)
 VisitSegs(v, segs, i) == IF i > Len(segs) \/ v.crashed THEN v ELSE VisitSegs(VisitSeg(v, segs[i]), segs, i + 1)
 VisitSt(v, st) == StPost(VisitSegs(StPre(v, st), st.segs, 1), st)
@@ -46,8 +45,7 @@ VisitIsas(v, ii, i) == IF i > Len(ii) \/ v.crashed THEN v ELSE VisitIsas(VisitGr
 RootPost(v, t) == IF v.crashed THEN v ELSE
                   LET v1 == W(v, SegOf("GE", <<ToString(v.st_loops), t.nodes[t.gs].info[3]>>))
                       v2 == IF t.nodes[t.isa].x = "1" THEN W(v1, SegOf("TA1", <<t.nodes[t.isa].id, DATE, TIME, "#ACK", "#NOTE">>)) ELSE v1
-                  IN IF t.nodes[t.isa].x = "1" /\ IsaEleBad(PIsa(t, t.isa)) THEN [v1 EXCEPT !.crashed = TRUE] ELSE
-                     W(v2, SegOf("IEA", <<"1", ICN>>))
+                  IN W(v2, SegOf("IEA", <<"1", ICN>>))
 Visit997(t) == RootPost(VisitIsas(RootPre(V0, t), Nested(t), 1), t)
 Ack997(t) == Visit997(t).out
 =============================================================================
